@@ -569,6 +569,18 @@ pub fn run_case(line: &str) -> String {
             let stats = SocketStats::default();
             let mut res = vec![];
             for u in t[1].split(',') {
+                // the four public incrementers called directly (ibs<n> ips ibd<n> ipd): what update() is made of
+                if let Some(w) = u.strip_prefix('i') {
+                    match &w[..2] {
+                        "bs" => stats.incr_bytes_sent(w[2..].parse().unwrap()),
+                        "ps" => stats.incr_packets_sent(),
+                        "bd" => stats.incr_bytes_dropped(w[2..].parse().unwrap()),
+                        "pd" => stats.incr_packets_dropped(),
+                        _ => panic!("bad increment {}", u),
+                    }
+                    res.push("-".to_string());
+                    continue;
+                }
                 let (r, len) = u.split_once('/').unwrap();
                 let len: usize = len.parse().unwrap();
                 let arg: std::io::Result<usize> = if let Some(w) = r.strip_prefix('k') {
